@@ -323,8 +323,8 @@ pub fn compare(c0: &RosCase) -> (u64, u64, Vec<(String, String, Value)>) {
         Ok(v) => v,
         Err(e) => {
             out.push((
-                "oracle#panic".into(),
-                format!("reference evaluator panicked: {e} on {:?}", c0),
+                "library-call-inside-reference-evaluator#panic".into(),
+                format!("a black-box call on the library object panicked while the reference evaluator ran: {e} on {:?}", c0),
                 serde_json::to_value(c0).unwrap(),
             ));
             return (0, 0, out);
